@@ -5,6 +5,7 @@ libraries' data model (listed in the evidence); class hierarchies themselves are
 """
 import griffe.dataclasses  # noqa: F401
 import griffe  # noqa: F401
+from typing import Sequence  # noqa: F401
 import io  # noqa: F401
 import pathlib  # noqa: F401
 import mypy.nodes as mp_nodes  # noqa: F401
@@ -26,7 +27,7 @@ SCHEMA = {
 }
 
 SCHEMA.update({
-    "pathlib.PurePath": {"stem": "str", "name": "str", "parts": "tuple[str, ...]"},
+    "pathlib.PurePath": {"stem": "str", "name": "str", "parts": "Sequence[str]"},
     "_griffe.expressions.Expr": {"canonical_path": "str", "canonical_name": "str"},
     "_griffe.expressions.ExprSubscript": {"slice": "griffe.Expr | str", "left": "griffe.Expr | str"},
     "_griffe.expressions.ExprTuple": {"elements": "list[griffe.Expr | str]"},
